@@ -87,7 +87,8 @@ class PGSQLBuilder(SQLBuilder):
             if isinstance(value, int):
                 result.append(str(value))
             elif isinstance(value, str):
-                result.append(value if is_ident(value) else '"%s"' % value.replace('"', '\\"'))
+                result.append(value if is_ident(value)
+                              else '"%s"' % value.replace('\\', '\\\\').replace('"', '\\"'))
             else: assert False, value
         return '{%s}' % ','.join(result)
     def JSON_QUERY(builder, expr, path):
